@@ -167,6 +167,10 @@ class Module:
       self.tree = ast.parse(self.src, filename=path)
     except SyntaxError as e:
       raise AnalysisError('cannot parse %s: %s' % (relpath, e))
+    self.renamed_locals = 0
+    if not os.environ.get('GINSA_NO_CANON'):
+      from .canon import canonicalise
+      self.renamed_locals = canonicalise(self.tree, name)
     for parent in ast.walk(self.tree):
       for child in ast.iter_child_nodes(parent):
         child.parent = parent
